@@ -21,3 +21,9 @@ def run(ctx):
     ctx.guarded(r, lambda rule: SC.r_transformable(rule, ("Interval", "f32", "Grad")))
     r = ctx.rule("R6", "voxel positions follow the documented screen-to-world map", 6)
     ctx.guarded(r, R.r_view_convention)
+    from .. import simplify as S_
+
+    r = ctx.rule("R7", "tile simplification is sound: one choice consumed per choice op, Left / Right keep the first / second operand, survivors are renamed through the remap table", 53 + 8 + 44)
+    ctx.guarded(r, lambda rule: S_.r1_choice_consumption(rule))
+    ctx.guarded(r, S_.r2_left_right)
+    ctx.guarded(r, S_.r_renaming)
